@@ -977,7 +977,7 @@ Proof.
   intros r. unfold pk_parse_case, nxt.
   pose proof (takez_length cred_len (tl (tl (tl (tl (tl r)))))) as HL.
   destruct (takez cred_len (tl (tl (tl (tl (tl r)))))) as [cred r']. cbn [fst] in *.
-  constructor; cbn [pk_kind pk_cred pk_key pk_q pk_sqid pk_pn pk_nec pk_off pk_fin pk_port pk_app pk_cd pk_plen];
+  constructor; cbn [pk_kind pk_cred pk_key pk_q pk_sqid pk_pn pk_nec pk_off pk_fin pk_port pk_app pk_cd pk_plen pk_delta];
     try apply zvar_bound.
   - apply N.mod_lt. discriminate.
   - now rewrite map_length.
@@ -1064,11 +1064,12 @@ Proof.
   replace (k <? 6)%Z with true by (symmetry; now apply Z.ltb_lt). reflexivity.
 Qed.
 
-Theorem pkt_judge_run : forall case, pkt_judge case (pkt_run case) = true.
+Theorem pkt_judge_run : forall case, pkt_rt_clean case = true -> pkt_judge case (pkt_run case) = true.
 Proof.
-  intros [|op r]; [reflexivity|]. unfold pkt_run, pkt_judge.
+  intros [|op r] Hclean; [reflexivity|]. unfold pkt_run, pkt_judge. unfold pkt_rt_clean in Hclean.
   destruct (op =? 0)%Z eqn:Eop.
-  - pose proof (pk_parse_case_ok r) as Hok. destruct (pk_parse_case r) as [c r']. cbn [fst] in Hok.
+  - pose proof (pk_parse_case_ok r) as Hok. destruct (pk_parse_case r) as [c r']. cbn [fst] in Hok, Hclean.
+    apply negb_true_iff in Hclean. unfold pk_rt_exh. rewrite Hclean.
     rewrite (pk_dec_out_expected c Hok).
     destruct (mutate r' (pk_header c ++ ph 512 (N.to_nat (pk_plen_of c)) ++ tag_ph)) as [bs1 same] eqn:EM.
     cbn [app]. rewrite Nat2Z.id.
@@ -1252,4 +1253,11 @@ Proof.
   intros bs bs' d d' h pl pl' tg tg' rest rest' H H'.
   apply st_decode_spec in H. apply st_decode_spec in H'.
   destruct H as (_ & _ & P). destruct H' as (_ & _ & P'). rewrite P in P'. now injection P'.
+Qed.
+
+(* the witness: a reliable stream data packet, retransmitted one packet number later *)
+Lemma pkt_rt_refuted : exists case, pkt_judge case (pkt_run case) = false.
+Proof.
+  exists [0; 0; 0; 7; 2; 5; 1; 2; 3; 4; 5; 6; 7; 8; 9; 10; 11; 12; 13; 14; 15; 16; 9; 33; 100; 3; 4096; 8192; 8080; 3; 16; 2; 32; 32; 7; 0; 0]%Z.
+  vm_compute. reflexivity.
 Qed.
